@@ -188,29 +188,44 @@ def build_overlay(repo=None, verbose=False):
     return out
 
 
+PRUNE_AGE = 6 * 3600.0     # nothing younger than this is ever removed: concurrent runs (other trees, other checks) may be using it
+
+
+def _mtime(p):
+    try:
+        return os.path.getmtime(p)
+    except OSError:
+        return 0.0
+
+
 def _prune(keep=6):
+    """Age-based, race-tolerant pruning of the build caches.  Several checks (also of different source trees) may run
+    at the same time and share /verif/.cache: an entry is removed only when it is old AND beyond the keep count."""
+    import shutil
+    now = time.time()
     bdir = os.path.join(CACHE, "build")
     try:
         ds = [os.path.join(bdir, d) for d in os.listdir(bdir)]
-    except FileNotFoundError:
-        return
+    except OSError:
+        ds = []
     ds = [d for d in ds if os.path.exists(os.path.join(d, ".done"))]
-    ds.sort(key=lambda d: os.path.getmtime(os.path.join(d, ".done")), reverse=True)
-    import shutil
+    ds.sort(key=lambda d: _mtime(os.path.join(d, ".done")), reverse=True)
     for d in ds[keep:]:
-        shutil.rmtree(d, ignore_errors=True)
+        if now - _mtime(os.path.join(d, ".done")) > PRUNE_AGE:
+            shutil.rmtree(d, ignore_errors=True)
     odir = os.path.join(CACHE, "obj")
     try:
         objs = [os.path.join(odir, f) for f in os.listdir(odir)]
-    except FileNotFoundError:
+    except OSError:
         return
     if len(objs) > 400:
-        objs.sort(key=os.path.getmtime, reverse=True)
+        objs.sort(key=_mtime, reverse=True)
         for o in objs[400:]:
-            try:
-                os.remove(o)
-            except OSError:
-                pass
+            if now - _mtime(o) > PRUNE_AGE:
+                try:
+                    os.remove(o)
+                except OSError:
+                    pass
 
 
 def pyx_drift(repo=None):
@@ -286,7 +301,9 @@ def build_kernlib(name, repo=None, flavour="rel"):
             # compile the scheduler runtime separately without instrumentation
             sobj = os.path.join(outdir, "sched_%s.o" % _sha(_read(extra[0]))[:16])
             if not os.path.exists(sobj):
-                _run(["gcc", "-c", "-O1", "-g", "-fPIC", extra[0], "-o", sobj], repo)
+                stmp = sobj + ".%d.tmp" % os.getpid()
+                _run(["gcc", "-c", "-O1", "-g", "-fPIC", extra[0], "-o", stmp], repo)
+                os.replace(stmp, sobj)
             # compile with the instrumentation, link WITHOUT -fsanitize/-fopenmp: libtsan and libgomp are replaced
             # by the scheduler runtime
             kobj = tmp + ".o"
@@ -296,11 +313,13 @@ def build_kernlib(name, repo=None, flavour="rel"):
         os.replace(tmp, so)
         if os.path.exists(tmp + ".o"):
             os.remove(tmp + ".o")
-        # prune older variants of the same lib/flavour
+        # prune OLD variants of the same lib/flavour (never a young file: another process may be building or loading it)
+        now = time.time()
         for f in os.listdir(outdir):
-            if f.startswith("%s_%s_" % (name, flavour)) and os.path.join(outdir, f) != so:
+            q = os.path.join(outdir, f)
+            if f.startswith("%s_%s_" % (name, flavour)) and q != so and now - _mtime(q) > PRUNE_AGE:
                 try:
-                    os.remove(os.path.join(outdir, f))
+                    os.remove(q)
                 except OSError:
                     pass
     return so
@@ -334,7 +353,7 @@ def build_mc_module(mod, repo=None):
     target = os.path.join(out, mod + sysconfig.get_config_var("EXT_SUFFIX"))
     if not os.path.exists(target):
         os.makedirs(out, exist_ok=True)
-        sobj = os.path.join(out, "sched.o")
+        sobj = os.path.join(out, "sched.%d.o" % os.getpid())
         _run(["gcc", "-c", "-O1", "-g", "-fPIC", sched_src, "-o", sobj], repo)
         tmp = target + ".%d.tmp" % os.getpid()
         _run(["g++", "-shared", "-o", tmp] + objs + [sobj], repo)
